@@ -36,13 +36,13 @@ def main():
         if rc != 0:
             print(m["id"], "PATCH NO LONGER APPLIES")
             bad += 1
-            sh("git -C /repo checkout -- . ; git -C /repo reset -q")
+            sh("git -C /repo reset -q ; git -C /repo checkout -- .")
             continue
         t = time.time()
         try:
             rc, out = sh("./check %s quick" % check, cwd="/verif")
         finally:
-            sh("git -C /repo checkout -- . ; git -C /repo reset -q")
+            sh("git -C /repo reset -q ; git -C /repo checkout -- .")
         caught = rc == 1 and ("VIOLATION property=%s" % check) in out
         sigs = sorted(set(re.findall(r"^\s+(C\d\d/.+?) ::", out, re.M)))[:3]
         m["regression"] = {"at": time.strftime("%Y-%m-%dT%H:%M:%S"), "check": check, "caught": caught, "exit": rc, "signatures": sigs, "wall_s": round(time.time() - t, 1)}
